@@ -105,8 +105,10 @@ P = {
        "(every truncation point, every short string), mutable and immutable transactions, indices incl. wrapping "
        "negatives; exception family AND captured state (stack, altstack, nOpCount) compared; txTo and scripts "
        "compared before/after. Transactions whose fields are outside the wire range (accepted by the public "
-       "constructors) make struct.error escape from a signature check: outside the theorems' hypothesis, see "
-       "DESIGN §11a (D21).",
+       "constructors) make struct.error / ValueError escape from a signature check that serialises the field: "
+       "KNOWN FINDING D21 (the model mirrors it, the containment theorems carry FieldsWF; generated and recognised "
+       "only when implementation = model = that escape and the fields are out of range). loop_append / "
+       "state_limits_every_iteration lift the tight limits to the head of every iteration reached.",
   note=TB + "OpenSSL's tolerant DER parsing: where the library accepts what the strict model rejects only containment is compared.",
   tech="Lean 4 proof (dead-branch / invariant by induction over interpreter steps) + correspondence on arbitrary byte strings"),
  'C08': dict(
@@ -114,8 +116,10 @@ P = {
        "code level (MPI route), builder = reference minimal encoding (incl. bool and non-coercible element kinds), "
        "iter∘build = canonical tokens, build∘iter∘build = build, raw iteration is a partition with the truncated-push "
        "remainder and its carried data, every predicate = an independent generative characterisation (concatenation "
-       "of valid operations / fixed byte layouts), sigop counts (both modes) = Core's GetOp-based count plus "
-       "compositional laws. T2: all scripts ≤ 2 bytes exhaustively through every observer, token lists through every "
+       "of valid operations / fixed byte layouts), sigop counts (both modes) = Core's GetOp-based count, and the "
+       "parser-free compositional laws (SigOpLaws) hold and determine the count uniquely (sigops_laws_hold, "
+       "sigops_laws_unique); buffer-protocol elements are spliced raw (build_buffer_raw, outside the read-back "
+       "domain); CScriptOp table growth across calls modelled (cscriptOpNewSeq). T2: all scripts ≤ 2 bytes exhaustively through every observer, token lists through every "
        "iterable and element kind, bytes/bytearray.",
   note=TB + "bn2vch/encode_op_pushdata fail at 2^32-byte encodings; theorems state that boundary.",
   tech="Lean 4 proof (structural induction over scripts) + model/implementation correspondence (exhaustive short scripts)"),
@@ -162,7 +166,10 @@ P = {
        "refuse_total (any text is a valid address of the selected chain or CBitcoinAddressError — no other outcome); "
        "cross-chain refusal (base58: unconditional; bech32 vs base58 re-reading: under the explicit 32-bit-checksum "
        "hypothesis). Bare UNCOMPRESSED pubkey scripts are converted by hashing 64 of the 65 key bytes: KNOWN FINDING "
-       "D18 (the test suite pins it; the model is property-conforming). T1: chain version bytes/HRP. T2: random "
+       "D18 (the test suite pins it; the model is property-conforming; recognised only when the implementation's "
+       "outcome equals field by field the as-coded outcome and the model's the conforming one; bare_pubkey_dispatch / "
+       "bare_pubkey_flag_off state when the bare-key branch is taken at all). The witness-keyhash branches of the "
+       "P2PKH converter have no Spec (T2 ONLY). T1: chain version bytes/HRP. T2: random "
        "selection histories incl. fresh import, cross-chain addresses, witness versions 1..16, mutated strings.",
   note=TB + "Base58 payload length of foreign text is deliberately not constrained (O2).",
   tech="Lean 4 proof (invariant over selection histories, decision logic) + generated-table equality + correspondence"),
@@ -189,7 +196,7 @@ P = {
        "recovered key is the signer's, rejection of other messages on the concrete curve — Lean recovery must "
        "reproduce the signer's key, VerifyMessage true for the signer's address, false for other keys, other "
        "address types and perturbed messages; histories with several keys across chain switches.",
-  note=TB + "OpenSSL (BN_*, EC_POINT_*) inside recover is covered by T2 only. Observation O15 (outside the property: a forged, not a library-made, signature): the infinity key 00 makes VerifyMessage accept for one fixed address.",
+  note=TB + "OpenSSL (BN_*, EC_POINT_*) inside recover is covered by T2 only. Observation O15 (outside the property: a forged, not a library-made, signature): the infinity key 00 makes VerifyMessage accept for one fixed address (mirrored in the model: o15_verify_accepts_infinity_key, o15_recovery_gives_infinity; tied by T2).",
   tech="Lean 4 proof of the glue (digest layout, header byte, decision logic) + abstract recovery algebra + correspondence against a Lean reference curve"),
  'C15': dict(
   text="PROVED for every non-empty hash list / transaction list in wire range: the loop-based merkle tree's last "
@@ -228,19 +235,25 @@ P = {
        "after the frame, re-framing identical, streams of frames parse in order (parseAll, the function the driver "
        "runs), wrong magic/checksum rejected, every strict prefix → truncation, length_guard and "
        "position_le_frame_end (never reads beyond the frame; > MAX_SIZE → error after 24 bytes); checksum length "
-       "proved. Altered-payload rejection assumes the 32-bit checksum differs (explicit hypothesis). Excluded from "
-       "the theorems' domain and listed in DESIGN §11a: nVersion 10300 is read as 300 (mirrors Bitcoin Core), "
-       "addresses built for a protocol version without the time field cannot be parsed back. T1: the 17 commands "
+       "proved. Altered-payload rejection assumes the 32-bit checksum differs (explicit hypothesis). The Spec domain includes "
+       "version 10300 and addresses of any protocol version (read with the version they were written for; parse "
+       "theorems carry AddrProto pv m); the implementation reads nVersion 10300 as 300 (KNOWN FINDING D24, mirrors "
+       "Bitcoin Core) and never passes protover to the address parser, so sub-31402 address entries cannot be read "
+       "back (KNOWN FINDING D25) — the model is conforming for both and each is recognised only when the "
+       "implementation's answer equals the model's with exactly that substitution. T1: the 17 commands "
        "covered by messagemap, version constants, chain magic. T2: every single-byte corruption and truncation of "
        "small frames under the four chains, histories on live objects (in-place edits, chain tours, stream reuse).",
   note=TB,
   tech="Lean 4 proof (codec round trip with stream position, fault-class decision logic) + tables + correspondence"),
  'C19': dict(
-  text="PARTIAL on the send side. PROVED: amount_in_exact (any JSON number text denoting k satoshis, |k| < 10^28, is "
-       "converted to exactly k, incl. the number scanner and Decimal's 28-digit context), hash_roundtrip / "
+  text="PARTIAL on the send side. PROVED: amount_in_exact (any JSON number text within CPython's numeral limits — "
+       "InLimits: ≤ 4300 integer digits, exponent magnitude below 10^18; beyond them JSONRPCError −342 on both sides — "
+       "denoting k satoshis, |k| < 10^28, is converted to exactly k, incl. the number scanner and Decimal's 28-digit "
+       "context; amount_in_outcomes: integer, Overflow or −342, nothing else), hash_roundtrip / "
        "b2lx_is_core_form, hex_transport, error_reply_raises (a non-null error always raises the class registered for "
        "its code, never a result — registered, unregistered, missing, unhashable codes, non-dict errors), "
-       "ids_strictly_increase over all call/batch histories, the checker satoshisDenoted decides 'the emitted text "
+       "ids_strictly_increase over all call/batch histories whatever becomes of each call (any reply kind or a "
+       "connection error: ids_independent_of_fate), the checker satoshisDenoted decides 'the emitted text "
        "denotes exactly k satoshis'. Send side: amount_out_exact_partial is proved over the rationals with spacing "
        "and shortest-repr contracts as hypotheses (IEEE-754/float.__repr__ are not modelled) — T2 ONLY in effect: "
        "every request body is re-parsed with exact decimal arithmetic. Non-reply bodies (non-UTF-8, non-object JSON) "
@@ -254,7 +267,8 @@ P = {
        "Python-int MurmurHash3 with late masking = UInt32 reference, bits set by insert = BIP37 schedule, bits after "
        "any history = initial bits ∪ scheduled bits of the inserted elements, contains = membership predicate, "
        "no_false_negative over all histories of inserts and wire round trips, caps (≤ 36000 bytes, ≤ 50 functions) "
-       "and built ≤ requested for all sizing inputs, ser_roundtrip, empty_matches_all. math.log and the float "
+       "and built ≤ requested for all sizing inputs, the constructor's exceptions decided by the model from its "
+       "arguments (ctor_rate_nonpos, ctor_zero_elements, ctor_caps), ser_roundtrip, empty_matches_all. math.log and the float "
        "products are abstract rationals (the harness evaluates the BIP37 formula with 60-digit decimals and compares "
        "where robust). T1: caps, flags. T2: all tail lengths, insertion histories interleaved with queries and "
        "round trips, wire filters with empty data and any hash-function count.",
